@@ -9,7 +9,7 @@
     ([Hyps.uniformb], [Hyps.wf_shapeb]). *)
 From Coq Require Import List Bool Arith.
 From V.C09 Require Import Analysis.
-From V.C06 Require Import Linearity Token Hyps ProofsBlock ProofsFlow ProofsSound ProofsComplete ProofsHyps.
+From V.C06 Require Import Linearity Token Hyps ProofsBlock ProofsFlow ProofsSound ProofsComplete ProofsHyps ProofsFlatten.
 Import ListNotations.
 
 (** Soundness, unconditional on reachability of the exit, for the code with and without
@@ -114,6 +114,19 @@ Theorem lin_complete : forall c sched K, uniform K c -> wf_shape c -> io_ok c ->
   check_cfg true c sched = Accept \/ crashed (check_cfg true c sched).
 Proof. exact lin_complete_lemma. Qed.
 Print Assumptions lin_complete.
+
+(** for the entry point the harness uses, the structure of the event lists is a theorem, not a
+    hypothesis: it is the shape of what BBLinearityChecker's traversal ([ev_stmt]) emits *)
+Theorem lin_complete_ast : forall bs entry exit_ reach fin sched K,
+  let c := mkLC (map flatten_block bs) entry exit_ reach fin in
+  uniform K c -> wf_shape c -> io_ok c -> reach = true -> all_reach c -> ~ violated K c ->
+  check_ast true bs entry exit_ reach fin sched = Accept \/
+  crashed (check_ast true bs entry exit_ reach fin sched).
+Proof.
+  intros bs entry exit_ reach fin sched K c HK HW HI HR HA HV.
+  apply (lin_complete_lemma c sched K HK HW HI (flatten_events_wf bs entry exit_ reach fin) HR HA HV).
+Qed.
+Print Assumptions lin_complete_ast.
 
 (* the hypotheses of [lin_complete] are satisfiable (same instance as for soundness) *)
 Example ex_complete_hyps : io_ok ex_cfg /\ events_wf ex_cfg /\ c_exit_reachable ex_cfg = true /\ all_reach ex_cfg.
